@@ -49,7 +49,8 @@ Definition exemptions : list (string * aspect * exemption) := [
       ("ocpp2.0.1.chargingStation.Stop", 4%Z, [])]);
   ("ocpp2.0.1.chargingStation.stopC", Content, Pinned LIFECYCLE [("ocpp2.0.1.chargingStation.Stop", 4%Z, [])]);
   ("ocppj.DefaultClientDispatcher.timer", Ptr, Pinned LIFECYCLE [
-      ("ocppj.DefaultClientDispatcher.Pause", 0%Z, [(mu_cd, 2%Z)]); ("ocppj.DefaultClientDispatcher.Resume", 0%Z, []);
+      ("ocppj.DefaultClientDispatcher.Pause", 0%Z, [(mu_cd, 2%Z)]); ("ocppj.DefaultClientDispatcher.stopTimer", 0%Z, []);
+      ("ocppj.DefaultClientDispatcher.Resume", 0%Z, []);
       ("ocppj.DefaultClientDispatcher.Start", 1%Z, [(mu_cd, 2%Z)]); ("ocppj.DefaultClientDispatcher.VerifFireTimer", 0%Z, [(mu_cd, 1%Z)]);
       ("ocppj.DefaultClientDispatcher.messagePump", 0%Z, [])]);
   (* reconnectC is created by NewClient; connect() only replaces a nil channel, which a constructed client never has *)
